@@ -186,4 +186,6 @@ def load(config, verbose=False):
     _loaded[path] = f
     from . import effects
     effects.register_facts(f)
+    import os as _os
+    f.use_views = _os.environ.get("RR_WORK_VIEWS", "0") == "1"
     return f
